@@ -7,11 +7,12 @@ META = {
     "driver_id": "Edit",
     "coq_targets": ["Props/C11.vo", "Extract/Extract_Edit.vo"],
     "technique": 'Coq invariant / refinement proofs over the executable edit-machine model + step-by-step differential correspondence of the extracted model with the implementation + direct oracle on the implementation',
-    "level_text": 'Theorems (closed under the global context): C11_delete_edge, C11_add_edge (forced or not), C11_swap, C11_update_attrs and C11_step_edge_ops: on every state satisfying W_dict and W_forest a refused call returns exactly the state it was given (Leibniz equality on the whole model state: graph, attributes, array, lookups, history, refresh log); for the swap this includes that none of its four nested edits can be refused after an earlier one was applied. C11_delete_node / C11_delete_node_errors (on a well-formed state every error of UserDeleteNode - pixels without an array or outside it, unknown node - returns exactly the state it was given), C11_add_node / C11_add_node_refusals (every error of UserAddNode is one of its six refusals, each raised before the first sub-edit: graph, array, features, history, refresh log, counters and lineage lookup equal, the track lookup equal up to the order inside the entry that get_track_neighbors sorts), C11_edge_calls. C11_paint (EVERY refused stroke, the rolled-back one included, returns - once the caller restored the painted pixels - a well-formed state observably equal to the original, with history, refresh log, counters and feature table literally equal and both lookups equal as sets; insertion order and unregistered attribute values of re-created nodes may differ, the documented caveat of C01); C11_user_actions_are_generated. Beyond the theorems the check rests on the differential correspondence (an Err of the model carries the mutated state, compared field by field with the implementation after the raise) and the deep before/after oracle on the implementation (about 30% refused calls, malformed stream included).',
+    "level_text": 'Theorems (closed under the global context): C11_delete_edge, C11_add_edge (forced or not), C11_swap, C11_update_attrs and C11_step_edge_ops: on every state satisfying W_dict and W_forest a refused call returns exactly the state it was given (Leibniz equality on the whole model state: graph, attributes, array, lookups, history, refresh log); for the swap this includes that none of its four nested edits can be refused after an earlier one was applied. C11_delete_node / C11_delete_node_errors (on a well-formed state every error of UserDeleteNode - pixels without an array or outside it, unknown node - returns exactly the state it was given), C11_add_node / C11_add_node_refusals (every error of UserAddNode is one of its six refusals, each raised before the first sub-edit: graph, array, features, history, refresh log, counters and lineage lookup equal, the track lookup equal up to the order inside the entry that get_track_neighbors sorts), C11_edge_calls. C11_paint (EVERY refused stroke, the rolled-back one included, returns - once the caller restored the painted pixels - a well-formed state observably equal to the original, with history, refresh log, counters and feature table literally equal and both lookups equal as sets; insertion order and unregistered attribute values of re-created nodes may differ, the documented caveat of C01); C11_user_actions_are_generated. Beyond the theorems the check rests on the differential correspondence (an Err of the model carries the mutated state, compared field by field with the implementation after the raise) and the deep before/after oracle on the implementation (about 30% refused calls, malformed stream included). C11_core_is_generated: one level further down, the queries, the node-id counter, Tracks.undo / redo and the seven basic actions with their inverses of the model equal the code translated on every run from solution_tracks.py, tracks.py, _track_annotator.py and actions/*.py (Gen/Core_gen.v; statement in Proofs/CoreTieBundle.v).',
     "level_note": 'Trusted: Coq kernel, extraction (ExtrOcamlBasic only), OCaml driver drv_Edit.ml, Python harness and oracles. Modelled, not verified: networkx DiGraph dict semantics, numpy indexing, skimage regionprops (symbolic: value = function of key, mask, spacing), psygnal. The theorems are about the hand-written model coq/Model/Edit.v; the tie to /repo is the step-by-step differential execution of the extracted model against the implementation on every run. Tied to the source in a second way: the history mechanism (action_history.py) and the seven composite user actions (user_actions/*.py) are re-translated on every run by fail-closed translators (harness/translate_history.py, translate_user_actions.py; closed idiom tables; runtime combinators Model/PyRt.v) and proved equal to the hand-written model for all arguments (Proofs/HistoryTie.v, UserActionsTie.v); trusted there: the idiom tables and combinators, and the stated conventions (get_time / successors on a missing node do not raise, StopIteration reported as KeyError, feature keys never None).',
     "design_ref": "DESIGN.md section 9 (C11)",
     "assumptions": ['the caller does not pass a lineage id to UserAddNode (outside its documented domain)', 'track_id and lineage_id features stay enabled during editing sessions', 'labels/ids are positive; times are frame indices within the array'],
-    "trusted": ["translators harness/translate_history.py and harness/translate_user_actions.py (closed idiom tables in their docstrings; fail closed) with the runtime combinators coq/Model/PyRt.v",
+    "trusted": ["translator harness/translate_core.py (closed idiom table; fail closed) with coq/Model/PyRt3.v; hand models left under it: regionprops / edge annotator update, bulk compute, networkx and array primitives",
+                "translators harness/translate_history.py and harness/translate_user_actions.py (closed idiom tables in their docstrings; fail closed) with the runtime combinators coq/Model/PyRt.v",
                 "correspondence harness harness/editmachine.py (scenario generator, canonicalisation, numeric references for regionprops / IoU)",
                 "oracles harness/edit_oracles.py"],
 }
@@ -30,6 +31,12 @@ def pre_build(ctx):
     translate_user_actions.regenerate(repo=str(__import__("common").REPO))
     if not translate_user_actions.LAST.get("ok"):
         raise RuntimeError("translator refused user_actions/*.py: %s" % translate_user_actions.LAST.get("msg"))
+    # the code the user actions call: queries, id counter, undo / redo, basic actions (Gen/Core_gen.v)
+    import translate_core
+
+    ok, msg = translate_core.regenerate()
+    if not ok:
+        raise RuntimeError("translator refused the core sources: %s" % msg)
 
 
 def run(ctx):
